@@ -283,6 +283,16 @@ func cliCase(o *kit.Out, r *kit.Rand, idx int) {
 		args = append(args, "--ignore-dropped")
 	}
 	var err error
+	if r.Chance(30) && !setupFails {
+		// a second execution in one process stands on its own: first a run in which every iteration
+		// fails (or none), then the run whose verdict is compared
+		was := f
+		f = kit.Pick(r, n, int64(0))
+		_, _ = kit.Guard(func() { _ = inst.ExecuteWithArgs(args) })
+		f = was
+		started.Store(0)
+		o.Count("cli", "second execution on the same instance")
+	}
 	crashed, _ := kit.Guard(func() { err = inst.ExecuteWithArgs(args) })
 	nerrs := 0
 	s, ff := n-f, f
